@@ -229,6 +229,19 @@ def walk_through_locals(fn, e, depth=4, _seen=None):
             srcs = fn.binds.get(h, [])
             if len(srcs) == 1 and srcs[0][0] == 'expr':
                 yield from walk_through_locals(fn, srcs[0][1], depth - 1, _seen)
+            elif len(srcs) == 1:
+                # an element of an iterated collection (closure parameter of `.any(|x| ..)`, pattern of a `for`)
+                s_ = srcs[0]
+                while s_[0] == 'proj':
+                    s_ = s_[1]
+                if s_[0] == 'cparam':
+                    pr = fn.parent.get(id(s_[1]))
+                    while pr and pr[0] is not None and pr[0].get('k') in ('wrap', 'ref'):
+                        pr = fn.parent.get(id(pr[0]))
+                    if pr and pr[0] is not None and pr[0].get('k') == 'mcall':
+                        yield from walk_through_locals(fn, pr[0]['recv'], depth - 1, _seen)
+                elif s_[0] == 'expr':
+                    yield from walk_through_locals(fn, s_[1], depth - 1, _seen)
 
 
 def deep_nodes(ctx, fn, e, depth=2, _seen=None, through_locals=False, skip=None):
